@@ -4,6 +4,10 @@ import vlib
 
 def main():
     t0 = time.time()
+    import xlate
+    xr = xlate.regenerate_all()      # Generated/*.lean must exist before the root (which imports Bridge/*) is built
+    if not xr.ok:
+        print("setup: translator tie broken:", {m: xr.modules[m]["translate_error"] or xr.modules[m]["errors"] for m in xr.failed()})
     ok, out = vlib.lake_build(["TexelVerif", "driver"], timeout=3600)
     print(out[-3000:])
     if not ok:
